@@ -66,8 +66,8 @@ int main(int argc, char **argv) {
 
 			// Feed the document to the child.
 			// Might block because it can cause a flush.
+			for (std::size_t pv_k = 0; pv_k < doc_desc.line_cnt; ++pv_k) PV_TRACE("F.write", pv_index, pv_k);
 			child_in << doc;
-			PV_TRACE("F.write", pv_index, 0);
 			++pv_index;
 		}
 
